@@ -9,12 +9,13 @@ From Krrood Require Import Base.Sx Eql.Syntax Eql.Sat Eql.Eval Eql.ShowSpec Eql.
 Import ListNotations.
 Open Scope nat_scope.
 
-(* bridge to the model of C01/C02: the instrumented evaluator hands out exactly the rows of the list-monad evaluator, in order *)
-Theorem C10_bridge : forall W D q, qfree_o (q_cond q) = true -> rows_of (trace_full W D q) = run W D q.
+(* bridge to the model of C01/C02: the instrumented evaluator hands out exactly the rows of the list-monad evaluator, in order
+   (every condition of the syntax: comparisons, and_/or_/not_, exists, for_all) *)
+Theorem C10_bridge : forall W D q, rows_of (trace_full W D q) = run W D q.
 Proof. exact trace_full_rows. Qed.
 
 (* the first n results of an(...).evaluate() are a prefix of the full result sequence ... *)
-Theorem C10_prefix_rows : forall W D q n, qfree_o (q_cond q) = true -> rows_of (trace_k W D q n) = firstn n (run W D q).
+Theorem C10_prefix_rows : forall W D q n, rows_of (trace_k W D q n) = firstn n (run W D q).
 Proof. exact trace_k_rows. Qed.
 
 (* ... and whoever stops earlier has caused a prefix of the events *)
@@ -28,13 +29,18 @@ Theorem C10_pulls_prefix : forall W D q n x,
   pulls_in_order x (trace_k W D q n) /\ pulls_in_order x (trace_full W D q).
 Proof. intros W D q n x. split; [apply trace_k_pulls_in_order | apply trace_full_pulls_in_order]. Qed.
 
-(* consuming pulls only what it needs.  Inside F10 (quantifier-free, no or_ over different variable sets -- a syntactic,
-   decidable class, [f10]; ANY selection, bound by the condition or not): at every moment a result is handed out, in the
-   n-stopped run for EVERY n, a domain has been exhausted ([End x] logged) only if some variable that was pulled from
-   BEFORE x was first pulled from has itself been pulled from at least twice -- i.e. only because an enclosing loop moved
-   past its first element, which is when a lazy nested-loop enumerator (variables in first-use order, inner domains
-   replayed from a cache) exhausts an inner domain too.  In particular the variable used first is never exhausted while
-   results are still being handed out, and before any loop has advanced no domain is. *)
+(* consuming pulls only what it needs.  F10 = every condition WITHOUT for_all (comparisons, and_, or_ of both kinds, not_,
+   exists), any selection -- a syntactic, decidable class, [f10].  At every moment a result is handed out, in the n-stopped
+   run for EVERY n, a domain has been exhausted ([End x] logged) only if
+   (1) some variable that was pulled from BEFORE x was first pulled from has itself been pulled from at least twice -- i.e.
+       an enclosing loop moved past its first element, which is when a lazy nested-loop enumerator (variables in first-use
+       order, inner domains replayed from a cache) exhausts an inner domain too; or
+   (2) x was already exhausted when the second pass of an or_ over different variable sets (Union) began: the first pass
+       runs like ElseIf(l, r) -- and satisfies (1) at each of its results --, completes its loops, and the second pass then
+       re-enumerates the right operand from the caches (nothing is pulled twice: C10_pulls_prefix).
+   In particular the variable used first is never exhausted while results of a union-free condition are still being
+   handed out, and before any loop has advanced no domain is.  exists obeys the same bound (it is a filter over its
+   condition's results). *)
 Theorem C10_demand : forall W D q n, f10 q = true ->
   demand_ok (trace_k W D q n) /\ demand_ok (trace_full W D q).
 Proof. intros W D q n H. split; [apply trace_k_demand | apply trace_full_demand]; exact H. Qed.
@@ -47,8 +53,7 @@ Theorem C10_reeval : forall W D steps more x q1 n q2 m,
   pulls_in_order x (trace_seq W D steps) /\
   Prefix (trace_seq W D steps) (trace_seq W D (steps ++ more)) /\
   trace_seq W D [(q1, n)] = trace_k W D q1 n /\
-  (qfree_o (q_cond q1) = true -> qfree_o (q_cond q2) = true ->
-   rows_of (trace_seq W D [(q1, n); (q2, m)]) = firstn n (run W D q1) ++ firstn m (run W D q2)).
+  rows_of (trace_seq W D [(q1, n); (q2, m)]) = firstn n (run W D q1) ++ firstn m (run W D q2).
 Proof.
   intros W D steps more x q1 n q2 m.
   split; [apply trace_seq_pulls_in_order | split; [apply trace_seq_prefix | split; [apply trace_seq_single | apply trace_seq_rows2]]].
@@ -90,18 +95,51 @@ Theorem C10_fixed_product_unbound :
   demand_okb (trace_k_product W D (e_query w_product2) 1) = false.
 Proof. repeat split; vm_compute; reflexivity. Qed.
 
-(* the demand bound is relative to a single-pass enumerator: with or_ over different variable sets the second pass of
-   Union enumerates the right operand's variable again after everything was exhausted -- outside F10, not a defect:
-   an(entity(y, or_(x.a >= 1, y.a >= 1))) *)
+(* part (2) of the bound is needed: without the exemption (drop the bookkeeping entries, among them the second-pass mark)
+   the bound is false for an(entity(y, or_(x.a >= 1, y.a >= 1))) -- with it, it holds (C10_demand) *)
 Definition w_union : ecase :=
   {| e_world := [(1, 1, [(0%nat, VI 0)]); (2, 2, [(0%nat, VI 1)])]%Z;
      e_doms := [(0%nat, [VO 1]); (1%nat, [VO 2])]%Z;
      e_query := {| q_sels := [OVar 1]; q_cond := Some (mk_or (CCmp OpGe (OAttr (OVar 0) 0) (OLit (VI 1)))
                                                              (CCmp OpGe (OAttr (OVar 1) 0) (OLit (VI 1)))) |} |}.
-Theorem C10_outside_union :
-  f10 (e_query w_union) = false /\
-  demand_okb (trace_full (mk_world (e_world w_union)) (mk_domains (e_doms w_union)) (e_query w_union)) = false.
-Proof. split; vm_compute; reflexivity. Qed.
+Theorem C10_union_two_parts :
+  let t := trace_full (mk_world (e_world w_union)) (mk_domains (e_doms w_union)) (e_query w_union) in
+  f10 (e_query w_union) = true /\
+  t = [Pull 0 0; Get 1 0; Pull 1 0; Get 2 0; Yield [VO 2%Z]; End 1; End 0; Pass; Get 2 0; Yield [VO 2%Z]] /\
+  demand_okb t = true /\ demand_okb (filter visible t) = false.
+Proof. repeat split; vm_compute; reflexivity. Qed.
+
+(* exists does NOT stop at the first witness: an(entity(x, exists(y, x.a <= y.a))), y's first element witnesses every x, yet
+   the scan over y goes on after the result for the first x was handed out (later witnesses are skipped as duplicates):
+   the second result costs the rest of y's domain.  The bound "y is pulled only as far as the first witness requires" is
+   false of the faithful model; the nested-loop bound of C10_demand is what holds. *)
+Definition w_exists : ecase :=
+  {| e_world := [(1, 1, [(0%nat, VI 1)]); (2, 2, [(0%nat, VI 1)]); (3, 3, [(0%nat, VI 1)]); (4, 4, [(0%nat, VI 1)]); (5, 5, [(0%nat, VI 1)])]%Z;
+     e_doms := [(0%nat, [VO 1; VO 2]); (1%nat, [VO 3; VO 4; VO 5])]%Z;
+     e_query := {| q_sels := [OVar 0]; q_cond := Some (CExists (OVar 1) (CCmp OpLe (OAttr (OVar 0) 0) (OAttr (OVar 1) 0))) |} |}.
+Theorem C10_exists_scans_on :
+  let W := mk_world (e_world w_exists) in let D := mk_domains (e_doms w_exists) in
+  f10 (e_query w_exists) = true /\
+  filter visible (trace_k W D (e_query w_exists) 1) = [Pull 0 0; Get 1 0; Pull 1 0; Get 3 0; Yield [VO 1%Z]] /\
+  filter visible (trace_k W D (e_query w_exists) 2)
+    = [Pull 0 0; Get 1 0; Pull 1 0; Get 3 0; Yield [VO 1%Z];
+       Pull 1 1; Get 4 0; Pull 1 2; Get 5 0; End 1; Pull 0 1; Get 2 0; Get 3 0; Yield [VO 2%Z]].
+Proof. repeat split; vm_compute; reflexivity. Qed.
+
+(* for_all is outside F10: it collects the candidate solutions of its condition for the first universal value before it
+   hands anything on, and needs the whole universal domain to confirm a result: an(entity(x, for_all(y, x.a >= y.a))) has
+   pulled ALL of x's domain (and exhausted both domains) before the first result *)
+Definition w_forall : ecase :=
+  {| e_world := [(1, 1, [(0%nat, VI 1)]); (2, 2, [(0%nat, VI 2)]); (3, 3, [(0%nat, VI 3)]); (4, 4, [(0%nat, VI 0)])]%Z;
+     e_doms := [(0%nat, [VO 1; VO 2; VO 3]); (1%nat, [VO 4])]%Z;
+     e_query := {| q_sels := [OVar 0]; q_cond := Some (CForAll 1 (CCmp OpGe (OAttr (OVar 0) 0) (OAttr (OVar 1) 0))) |} |}.
+Theorem C10_forall_eager :
+  let W := mk_world (e_world w_forall) in let D := mk_domains (e_doms w_forall) in
+  f10 (e_query w_forall) = false /\
+  trace_k W D (e_query w_forall) 1
+    = [Pull 1 0; Get 4 0; Pull 0 0; Get 1 0; Pull 0 1; Get 2 0; Pull 0 2; Get 3 0; End 0; End 1; Yield [VO 1%Z]] /\
+  demand_okb (trace_k W D (e_query w_forall) 1) = false.
+Proof. repeat split; vm_compute; reflexivity. Qed.
 
 (* a query inside F10 with three results: the hypotheses are satisfiable and the statements say something:
    an(set_of([x, y], and_(x.a >= 1, y.a <= x.a))) -- stopping after the first row has pulled 2 of x's 3 and 1 of y's 2 elements *)
@@ -112,7 +150,7 @@ Definition w_lazy : ecase :=
                    q_cond := Some (mk_and (CCmp OpGe (OAttr (OVar 0) 0) (OLit (VI 1)))
                                           (CCmp OpLe (OAttr (OVar 1) 0) (OAttr (OVar 0) 0))) |} |}.
 Example C10_nonvacuous :
-  f10 (e_query w_lazy) = true /\ qfree_o (q_cond (e_query w_lazy)) = true /\
+  f10 (e_query w_lazy) = true /\
   trace_k (mk_world (e_world w_lazy)) (mk_domains (e_doms w_lazy)) (e_query w_lazy) 1
     = [Pull 0 0; Get 1 0; Pull 0 1; Get 2 0; Get 2 0; Pull 1 0; Get 4 0; Yield [VO 2; VO 4]%Z] /\
   length (rows_of (trace_full (mk_world (e_world w_lazy)) (mk_domains (e_doms w_lazy)) (e_query w_lazy))) = 3.
@@ -127,4 +165,6 @@ Print Assumptions C10_reeval.
 Print Assumptions C10_spec_exec.
 Print Assumptions C10_fixed_product.
 Print Assumptions C10_fixed_product_unbound.
-Print Assumptions C10_outside_union.
+Print Assumptions C10_union_two_parts.
+Print Assumptions C10_exists_scans_on.
+Print Assumptions C10_forall_eager.
